@@ -11,6 +11,7 @@ iterations are covered by the correspondence run and the implementation-side re-
 -/
 import Lean
 import Rooc.Proofs.Format
+import Rooc.Proofs.Idem
 namespace Rooc.Props.C11
 open Rooc Rooc.Syntax Rooc.Syntax.Doc Rooc.Syntax.Proofs
 
@@ -67,6 +68,17 @@ theorem dropped_left_table (p c : BinOp) (x y : PExp) :
 theorem format_idem_partial (t : PExp) (h : WF t) (hr : roundTrips t = true) :
     (parseToks (fmtToks t)).map fmtToks = .ok (fmtToks t) := by
   rw [parse_format_partial t h hr]; rfl
+
+/-- **The formatted text always parses and formats to itself again** — for EVERY tree of the sub-language,
+also where parentheses are dropped: the printed tokens parse to `norm t` (`t` re-associated exactly at the
+dropped parentheses), and that tree is printed as the same tokens. (So the defect is "meaning changes",
+never "invalid program" or "not idempotent", on this fragment.) -/
+theorem format_idem (t : PExp) (h : WF t) :
+    ∃ t', parseToks (fmtToks t) = .ok t' ∧ fmtToks t' = fmtToks t :=
+  ⟨norm t, fmt_idem t h⟩
+
+example : norm (.bin .sub (.var "x") (.bin .sub (.var "y") (.var "z"))) = .bin .sub (.bin .sub (.var "x") (.var "y")) (.var "z") := by
+  simp [norm, join, dropL, dropR, needParenLeft, needParenRight, printsParen, Gen.binPrec, lbpD, rbpD, docLevel, docRightAssoc]
 
 /-- **The repair is right**: with `fixes/C11-parens.diff` (parentheses also around a right operand of equal
 precedence under a left-associative operator and around a right-associative left operand of equal
